@@ -2,7 +2,7 @@
 import re
 from rules import csspacks as cp
 
-RULE = "C08.int/*/writer + C08.ser: integer numbers are written from their integer value with `+` iff has_sign and non-negative and `-0` kept; every other token kind is serialised by cssparser to_css. C08.step: skipping a comment consumes nothing else. C08.rules/lookup-key + not-a-rule-list: the rule-list table is consulted with the at-keyword itself and contains no declaration-block at-rule. C08.ctx: inside every dispatch loop except the declaration-value routine, nested-block arms (Function, ParenthesisBlock, SquareBracketBlock) descend with a selector-context routine unless the function is a math function; selector-context loops read whitespace tokens, set has_whitespace on them and re-emit one space before every token except `{` and whitespace itself. C08.rules: the set of at-rules whose block is parsed as a rule list contains the CSS reference set. C08.calc: +/- whitespace preservation is inherited by nested blocks and applies to every CSS math function. C08.txn: a try_parse closure that opened wrapper blocks closes them before failing. C08.pair/at-rule-stack + only/detection (shared with C17): the at-rule wrappers replayed for a low-priority rule are pushed and popped in pairs, and a rule is taken out of the normal stream only for an exact `:host` / `:host(`. C08.sep: every append goes through the serialising appenders, which apply cssparser's separator rule."
+RULE = "C08.int/*/writer + C08.ser: integer numbers are written from their integer value with `+` iff has_sign and non-negative and `-0` kept; every other token kind is serialised by cssparser to_css. C08.step: skipping a comment consumes nothing else. C08.rules/lookup-key + not-a-rule-list: the rule-list table is consulted with the at-keyword itself and contains no declaration-block at-rule. C08.ctx: inside every dispatch loop except the declaration-value routine, nested-block arms (Function, ParenthesisBlock, SquareBracketBlock) descend with a selector-context routine unless the function is a math function; selector-context loops read whitespace tokens, set has_whitespace on them and re-emit one space before every token except `{` and whitespace itself. C08.rules: the set of at-rules whose block is parsed as a rule list contains the CSS reference set. C08.calc: +/- whitespace preservation is inherited by nested blocks and applies to every CSS math function. C08.txn: a try_parse closure that opened wrapper blocks closes them before failing. C08.pair/at-rule-stack + only/detection (shared with C17): the at-rule wrappers replayed for a low-priority rule are pushed and popped in pairs, and a rule is taken out of the normal stream only for an exact `:host` / `:host(`. C08.sep: every append goes through the serialising appenders, which apply cssparser's separator rule; C08.sep/adjacency: the blank between two tokens is decided from their serialization types AND from whether they touched in the source (a type-only decision is wrong for one of `a 1` / `U+0`), the exception covers signed numeric source tokens only (signed-only, source-tokens-only)."
 EXPLANATION = ("The token-dispatch loops of the stylesheet compiler are located by role in the expanded syntax tree and their arms, "
                "flags and field writers (MIR) are checked against the rule; no stylesheet is ever transformed.")
 ASSUMPTIONS = ["cssparser tokenises and serialises per CSS Syntax 3", "refs/css_refs.json lists rule-bearing at-rules and math functions correctly",
